@@ -1453,6 +1453,44 @@ class Run:
                 fr.env[pname] = x
 
             return self.comprehend(seq, bind, lambda: self.ev(f.node.body))
+        if name == "filter":
+            # filter(f, seq): a fresh list holding exactly the elements of seq on which f is true (as a list: python's
+            # filter object is only ever consumed by list() / a loop here).  Modelled: membership, length bounds and that
+            # every element is an element of seq satisfying f; the relative order of the kept elements is NOT modelled.
+            f, seq = args
+            fr = self.frames[-1]
+            if isinstance(f, LambdaVal) and len(f.node.args.args) == 1:
+                pname = f.node.args.args[0].arg
+                keep = self.comprehend(seq, lambda x: fr.env.__setitem__(pname, x), lambda: SV(T.BOOL, self.truthy(self.ev(f.node.body))))
+            elif isinstance(f, BoundMethod):
+                keep = self.comprehend(seq, lambda x: fr.env.__setitem__("$filter_x", x), lambda: SV(T.BOOL, self.truthy(self.call_bound(f, [fr.env["$filter_x"]], {}))))
+            else:
+                raise Reject("filter with %r" % (f,))
+            cnt, elem, cont = self.iter_desc(seq)
+            x0 = elem(z3.IntVal(0))
+            if not isinstance(x0, SV):
+                raise Reject("filter over non-symbolic elements")
+            t = T.List(x0.ty)
+            out = self.new_container(t)
+            hp = self.heap
+            es = T.sort(x0.ty)
+            arr = H.fresh("flt_elems", z3.ArraySort(H.I, es))
+            ln = z3.Int(H.fresh_name("flt_len"))
+            hp._upd(t, "elem", out.z, arr)
+            nm_, a_ = hp.carr(t, "len")
+            hp.set(nm_, z3.Store(a_, out.z, ln))
+            i, j = z3.Int(H.fresh_name("flt_i")), z3.Int(H.fresh_name("flt_j"))
+            e = z3.Const(H.fresh_name("flt_e"), es)
+            M = H.mem_fn(es)
+            kept = lambda k: hp.l_elem(keep.ty, keep.z, k)
+            src = lambda k: elem(k).z
+            self.assume(z3.And(0 <= ln, ln <= cnt))
+            # every element of the result is a kept element of the source, and a member of the result
+            self.assume(z3.ForAll([j], z3.Implies(z3.And(0 <= j, j < ln), z3.And(M(arr, ln, z3.Select(arr, j)), z3.Exists([i], z3.And(0 <= i, i < cnt, src(i) == z3.Select(arr, j), kept(i))))), patterns=[z3.Select(arr, j)]))
+            # every kept element of the source is a member of the result; members are elements
+            self.assume(z3.ForAll([i], z3.Implies(z3.And(0 <= i, i < cnt, kept(i)), M(arr, ln, src(i))), patterns=[kept(i)]))
+            self.assume(z3.ForAll([e], M(arr, ln, e) == z3.Exists([j], z3.And(0 <= j, j < ln, z3.Select(arr, j) == e)), patterns=[M(arr, ln, e)]))
+            return out
         if name == "sum":
             (v,) = args[:1]
             if isinstance(v, SV) and isinstance(v.ty, T.List) and v.ty.elem in (T.INT, T.REAL):
@@ -2166,6 +2204,11 @@ class Run:
         if c.ensures is not None:
             for nm, g in _named(c.ensures(cc2), "ensures"):
                 self.assume(g)
+        if res is not None and isinstance(res.ty, T.List):
+            # true of every list: membership is "some index holds the value" (contracts of list-returning callees speak of
+            # membership, callers often iterate by index)
+            self.assume(self.heap.l_mem_def(res.ty, res.z))
+            self.assume(self.heap.l_index_mem(res.ty, res.z))
         return res if res is not None else NONE_SV
 
     def alloc0_shift(self, bump):
